@@ -803,6 +803,29 @@ impl<'ast, 'r, 'a> Visit<'ast> for Collector<'r, 'a> {
                 self.rw.log.push(format!("R32 get_or_init closure annotated as {key}"));
                 self.edits.push(Edit { range: rng(e), text: format!("{recv}.get_or_init({sig}{hdr} {{ {body} }})"), prio: 0 });
             }
+            // R42: V[I].entry(K).or_default().insert(X)  ->  __level_insert(&mut V, I, K, X)
+            // (Verus has no IndexMut; the index check of `V[I]` becomes the stand-in's precondition)
+            syn::Expr::MethodCall(m)
+                if (m.method == "insert" || m.method == "push") && self.rw.on("R42") && m.args.len() == 1
+                    && is_method(&m.receiver, "or_default").map_or(false, |od| od.args.is_empty() && is_method(&od.receiver, "entry").map_or(false, |en| en.args.len() == 1 && matches!(&*en.receiver, syn::Expr::Index(_)))) =>
+            {
+                let od = is_method(&m.receiver, "or_default").unwrap();
+                let en = is_method(&od.receiver, "entry").unwrap();
+                let ix = match &*en.receiver {
+                    syn::Expr::Index(ix) => ix,
+                    _ => unreachable!(),
+                };
+                if !matches!(&*ix.expr, syn::Expr::Path(_)) {
+                    die("unsupported", &format!("{}: R42 side condition: the indexed vector is not a plain variable", self.rw.fn_path));
+                }
+                let v = self.render(&ix.expr);
+                let i = self.render(&ix.index);
+                let k = self.render(&en.args[0]);
+                let x = self.render(&m.args[0]);
+                let f = if m.method == "insert" { "__level_insert" } else { "__level_push" };
+                self.rw.log.push(format!("R42 V[I].entry(K).or_default().{}(X) -> {f}", m.method));
+                self.edits.push(Edit { range: rng(e), text: format!("{f}(&mut {v}, {i}, {k}, {x})"), prio: 0 });
+            }
             // R38: ITER.next().is_some()  ->  ITER.len() > 0   (ITER is a stand-in returning the vector of what the adapter chain yields)
             syn::Expr::MethodCall(m) if m.method == "is_some" && self.rw.on("R38") && m.args.is_empty() && is_method(&m.receiver, "next").map_or(false, |n| n.args.is_empty()) => {
                 let nx = is_method(&m.receiver, "next").unwrap();
